@@ -23,14 +23,22 @@ func DebugC20W(run *Run) {
 	}
 	ts, mg, _ := v.Base.Typesystem(bg, cs.Model)
 	wrong, errs, ok := 0, 0, 0
+	byEng := map[string]int{}
 	for i := 0; i < 6000; i++ {
 		dl := []time.Duration{10 * time.Second, 300 * time.Millisecond, 3 * time.Millisecond, 300 * time.Microsecond, 100 * time.Microsecond}[r.Intn(5)]
 		ctx, cancel := context.WithTimeout(bg, dl)
 		if r.Intn(2) == 0 {
 			cds.Arm(1+r.Intn(12), cancel)
 		}
-		e := &CheckEv{Eng: []string{"v1:weight2", "server"}[i%2], O: Obj{"doc", "d2"}, R: "viewer", U: Subj{"user", "b", ""}, Ctx: Ctx{}}
-		v.Base.RunCheck(ctx, e, ts, mg)
+		e := &CheckEv{Eng: []string{"v1:weight2", "server", "v2:weight2", "server:v2"}[i%4], O: Obj{"doc", "d2"}, R: "viewer", U: Subj{"user", "b", ""}, Ctx: Ctx{}}
+		if e.Eng == "server:v2" {
+			v.Get("server:v2").RunCheck(ctx, e, ts, mg)
+		} else {
+			v.Base.RunCheck(ctx, e, ts, mg)
+		}
+		if e.Got == "F" {
+			byEng[e.Eng]++
+		}
 		cancel()
 		cds.Disarm()
 		switch e.Got {
@@ -42,5 +50,5 @@ func DebugC20W(run *Run) {
 			ok++
 		}
 	}
-	fmt.Printf("weight2 stress: allowed %d, errors %d, WRONG DENIALS %d\n", ok, errs, wrong)
+	fmt.Printf("weight2 stress: allowed %d, errors %d, WRONG DENIALS %d %v\n", ok, errs, wrong, byEng)
 }
